@@ -1,5 +1,946 @@
-//! relational engine (see main.rs). Entry point: `vh-ops relational [options]`; sub-modes via further arguments.
+//! Relational operator engines for C12 (declared output types), C13 (in-place
+//! and commuted execution) and C14 (layout independence).
+//!
+//! `vh-ops relational <inplace|layout|types|list> --out <trace.ndjson> [options]`
+//!
+//! The harness only *drives* the real operators (obtained from single-operator
+//! ONNX models decoded by the real loader) and records what they returned.
+//! Every pass/fail decision is taken by TLC in `specs/ops/Trace_Relational.tla`.
+
+pub mod catalogue;
+pub mod catalogue2;
+mod inplace;
+mod layout;
+mod types;
+
+use std::sync::Arc;
+
+use rten::verif::{
+    BufferPool, DataType, InPlaceInputs, InputList, Node, OpRunContext, Operator, OutputMask,
+    Sequence, Value, ValueType, ValueView,
+};
+use rten_tensor::prelude::*;
+use rten_tensor::{Tensor, TensorView};
+use vcommon::{Rng, Value as J, json, onnx};
+
+pub type OpArc = Arc<dyn Operator + Send + Sync>;
+
+// ------------------------------------------------------------------ data model
+
+#[derive(Clone, Copy, PartialEq, Eq, Debug)]
+pub enum DT {
+    F32,
+    I32,
+    I8,
+    U8,
+}
+
+impl DT {
+    pub const ALL: [DT; 4] = [DT::F32, DT::I32, DT::I8, DT::U8];
+    pub fn name(self) -> &'static str {
+        match self {
+            DT::F32 => "f32",
+            DT::I32 => "i32",
+            DT::I8 => "i8",
+            DT::U8 => "u8",
+        }
+    }
+    pub fn from_name(s: &str) -> Option<DT> {
+        DT::ALL.iter().copied().find(|d| d.name() == s)
+    }
+    pub fn of(d: DataType) -> DT {
+        match d {
+            DataType::Float => DT::F32,
+            DataType::Int32 => DT::I32,
+            DataType::Int8 => DT::I8,
+            DataType::UInt8 => DT::U8,
+            _ => panic!("unknown DataType"),
+        }
+    }
+    pub fn onnx(self) -> i32 {
+        match self {
+            DT::F32 => onnx::FLOAT,
+            DT::I32 => onnx::INT32,
+            DT::I8 => onnx::INT8,
+            DT::U8 => onnx::UINT8,
+        }
+    }
+}
+
+pub fn vt_name(v: ValueType) -> String {
+    match v {
+        ValueType::Tensor(d) => DT::of(d).name().to_string(),
+        ValueType::Sequence(d) => format!("seq_{}", DT::of(d).name()),
+        _ => "unknown".to_string(),
+    }
+}
+
+/// A logical tensor. `vals` holds the element *bits* for f32 and the element
+/// value for the integer types, in row-major order.
+#[derive(Clone, Debug, PartialEq)]
+pub struct T {
+    pub dt: DT,
+    pub shape: Vec<usize>,
+    pub vals: Vec<i32>,
+}
+
+impl T {
+    pub fn f(shape: &[usize], v: &[f32]) -> T {
+        assert_eq!(shape.iter().product::<usize>(), v.len());
+        T {
+            dt: DT::F32,
+            shape: shape.to_vec(),
+            vals: v.iter().map(|x| x.to_bits() as i32).collect(),
+        }
+    }
+    pub fn i(shape: &[usize], v: &[i32]) -> T {
+        assert_eq!(shape.iter().product::<usize>(), v.len());
+        T {
+            dt: DT::I32,
+            shape: shape.to_vec(),
+            vals: v.to_vec(),
+        }
+    }
+    pub fn typed(dt: DT, shape: &[usize], v: &[i32]) -> T {
+        assert_eq!(shape.iter().product::<usize>(), v.len());
+        T {
+            dt,
+            shape: shape.to_vec(),
+            vals: v.to_vec(),
+        }
+    }
+    /// 1-D i32 tensor.
+    pub fn ints(v: &[i64]) -> T {
+        T::i(&[v.len()], &v.iter().map(|x| *x as i32).collect::<Vec<_>>())
+    }
+    pub fn scalar_i(v: i32) -> T {
+        T::i(&[], &[v])
+    }
+    pub fn scalar_f(v: f32) -> T {
+        T::f(&[], &[v])
+    }
+    pub fn numel(&self) -> usize {
+        self.vals.len()
+    }
+    pub fn json(&self) -> J {
+        json!({"dtype": self.dt.name(), "shape": self.shape, "bits": self.vals, "items": []})
+    }
+    /// Dims of size > 1 along which the content is constant.
+    pub fn const_dims(&self) -> Vec<usize> {
+        let n = self.shape.len();
+        let mut out = Vec::new();
+        if self.numel() == 0 {
+            return out;
+        }
+        let rm = row_major(&self.shape);
+        for d in 0..n {
+            if self.shape[d] < 2 {
+                continue;
+            }
+            let mut ok = true;
+            for (lin, _) in self.vals.iter().enumerate() {
+                let idx_d = (lin / rm[d]) % self.shape[d];
+                let base = lin - idx_d * rm[d];
+                if self.vals[lin] != self.vals[base] {
+                    ok = false;
+                    break;
+                }
+            }
+            if ok {
+                out.push(d);
+            }
+        }
+        out
+    }
+    /// Copy index 0 along `d` over the whole dim (makes the content constant along `d`).
+    pub fn make_const_along(&mut self, d: usize) {
+        let rm = row_major(&self.shape);
+        for lin in 0..self.vals.len() {
+            let idx_d = (lin / rm[d]) % self.shape[d];
+            let base = lin - idx_d * rm[d];
+            self.vals[lin] = self.vals[base];
+        }
+    }
+}
+
+/// An operator input: absent optional input, tensor, or sequence of tensors.
+#[derive(Clone, Debug)]
+pub enum In {
+    None,
+    T(T),
+    Seq(DT, Vec<T>),
+}
+
+impl In {
+    pub fn json(&self) -> J {
+        match self {
+            In::None => json!({"dtype": "none", "shape": [], "bits": [], "items": []}),
+            In::T(t) => t.json(),
+            In::Seq(dt, items) => json!({
+                "dtype": format!("seq_{}", dt.name()), "shape": [], "bits": [],
+                "items": items.iter().map(|t| json!({"shape": t.shape, "bits": t.vals})).collect::<Vec<_>>()
+            }),
+        }
+    }
+    pub fn type_name(&self) -> String {
+        match self {
+            In::None => "none".into(),
+            In::T(t) => t.dt.name().into(),
+            In::Seq(dt, _) => format!("seq_{}", dt.name()),
+        }
+    }
+    pub fn from_json(j: &J) -> In {
+        let dt = j["dtype"].as_str().unwrap_or("none");
+        let ints = |a: &J| -> Vec<i32> {
+            a.as_array()
+                .map(|v| v.iter().map(|x| x.as_i64().unwrap_or(0) as i32).collect())
+                .unwrap_or_default()
+        };
+        let shape = |a: &J| -> Vec<usize> { ints(a).into_iter().map(|x| x as usize).collect() };
+        if dt == "none" {
+            In::None
+        } else if let Some(e) = dt.strip_prefix("seq_") {
+            let edt = DT::from_name(e).unwrap();
+            In::Seq(
+                edt,
+                j["items"]
+                    .as_array()
+                    .map(|v| {
+                        v.iter()
+                            .map(|it| T::typed(edt, &shape(&it["shape"]), &ints(&it["bits"])))
+                            .collect()
+                    })
+                    .unwrap_or_default(),
+            )
+        } else {
+            In::T(T::typed(
+                DT::from_name(dt).unwrap(),
+                &shape(&j["shape"]),
+                &ints(&j["bits"]),
+            ))
+        }
+    }
+}
+
+pub fn row_major(shape: &[usize]) -> Vec<usize> {
+    let mut s = vec![1usize; shape.len()];
+    for d in (0..shape.len().saturating_sub(1)).rev() {
+        s[d] = s[d + 1] * shape[d + 1].max(1);
+    }
+    s
+}
+
+// ------------------------------------------------------------- layouts
+
+/// Storage layout of one materialised tensor.
+#[derive(Clone, Debug)]
+pub struct Lay {
+    pub strides: Vec<usize>,
+    pub offset: usize,
+    /// Length of the backing storage (from element 0, including `offset`).
+    pub len: usize,
+}
+
+impl Lay {
+    pub fn json(&self) -> J {
+        json!({"strides": self.strides, "offset": self.offset, "len": self.len})
+    }
+}
+
+fn min_len(shape: &[usize], strides: &[usize]) -> usize {
+    if shape.iter().any(|s| *s == 0) {
+        return 0;
+    }
+    shape
+        .iter()
+        .zip(strides)
+        .map(|(s, st)| (s - 1) * st)
+        .sum::<usize>()
+        + 1
+}
+
+fn is_contig(shape: &[usize], strides: &[usize]) -> bool {
+    let mut p = 1;
+    for (sz, st) in shape.iter().zip(strides).rev() {
+        if *sz == 1 {
+            continue;
+        }
+        if *st != p {
+            return false;
+        }
+        p *= sz;
+    }
+    true
+}
+
+/// Strides of a view obtained by storing the tensor contiguously in the
+/// dimension order `order` (outermost first) and permuting back.
+fn permuted_strides(shape: &[usize], order: &[usize]) -> Vec<usize> {
+    let mut strides = vec![0usize; shape.len()];
+    let mut p = 1usize;
+    for &d in order.iter().rev() {
+        strides[d] = p;
+        p *= shape[d].max(1);
+    }
+    strides
+}
+
+/// Layout classes of C14 for *views*. Returns None when the class cannot
+/// represent this tensor in a way that differs from the contiguous layout.
+pub fn view_layout(t: &T, class: &str, rng: &mut Rng) -> Option<Lay> {
+    let shape = &t.shape;
+    let n = shape.len();
+    let empty = t.numel() == 0;
+    match class {
+        "contig" => {
+            let strides = row_major(shape);
+            Some(Lay {
+                len: min_len(shape, &strides),
+                strides,
+                offset: 0,
+            })
+        }
+        "permuted" => {
+            if empty || n < 2 {
+                return None;
+            }
+            for _ in 0..8 {
+                let mut order: Vec<usize> = (0..n).collect();
+                rng.shuffle(&mut order);
+                let strides = permuted_strides(shape, &order);
+                if !is_contig(shape, &strides) {
+                    return Some(Lay {
+                        len: min_len(shape, &strides),
+                        strides,
+                        offset: 0,
+                    });
+                }
+            }
+            // deterministic fallback: full reversal
+            let order: Vec<usize> = (0..n).rev().collect();
+            let strides = permuted_strides(shape, &order);
+            if is_contig(shape, &strides) {
+                None
+            } else {
+                Some(Lay {
+                    len: min_len(shape, &strides),
+                    strides,
+                    offset: 0,
+                })
+            }
+        }
+        "stepped" => {
+            if empty {
+                return None;
+            }
+            // view = big[lead_d .. : step_d] of a contiguous buffer `big`
+            let mut steps: Vec<usize> = (0..n).map(|_| 1 + rng.below(3)).collect();
+            let leads: Vec<usize> = (0..n).map(|_| rng.below(2)).collect();
+            let tails: Vec<usize> = (0..n).map(|_| rng.below(2)).collect();
+            if n > 0 && !(0..n).any(|d| shape[d] > 1 && steps[d] > 1) {
+                // force a real step on the innermost dim with size > 1 (if any)
+                if let Some(d) = (0..n).rev().find(|d| shape[*d] > 1) {
+                    steps[d] = 2;
+                }
+            }
+            let big: Vec<usize> = (0..n)
+                .map(|d| leads[d] + (shape[d] - 1) * steps[d] + 1 + tails[d])
+                .collect();
+            let brm = row_major(&big);
+            let strides: Vec<usize> = (0..n).map(|d| brm[d] * steps[d]).collect();
+            let mut offset: usize = (0..n).map(|d| leads[d] * brm[d]).sum();
+            if n == 0 || offset == 0 {
+                offset += 1 + rng.below(3);
+            }
+            let len = offset + min_len(shape, &strides) + rng.below(3);
+            Some(Lay {
+                strides,
+                offset,
+                len,
+            })
+        }
+        "broadcast" => {
+            if empty {
+                return None;
+            }
+            let cd = t.const_dims();
+            if cd.is_empty() {
+                return None;
+            }
+            // stride 0 on a non-empty random subset of the constant dims
+            let mut zero: Vec<usize> = cd.iter().copied().filter(|_| rng.chance(1, 2)).collect();
+            if zero.is_empty() {
+                zero.push(*rng.pick(&cd));
+            }
+            let reduced: Vec<usize> = (0..n)
+                .map(|d| if zero.contains(&d) { 1 } else { shape[d] })
+                .collect();
+            let rrm = row_major(&reduced);
+            let strides: Vec<usize> = (0..n)
+                .map(|d| if zero.contains(&d) { 0 } else { rrm[d] })
+                .collect();
+            Some(Lay {
+                len: min_len(shape, &strides),
+                strides,
+                offset: 0,
+            })
+        }
+        _ => None,
+    }
+}
+
+fn fill<E: Copy>(logical: &[E], shape: &[usize], lay: &Lay, poison: E) -> Vec<E> {
+    let mut store = vec![poison; lay.len];
+    let n = shape.len();
+    let mut idx = vec![0usize; n];
+    for v in logical {
+        let off = lay.offset
+            + idx
+                .iter()
+                .zip(&lay.strides)
+                .map(|(i, s)| i * s)
+                .sum::<usize>();
+        store[off] = *v;
+        for d in (0..n).rev() {
+            idx[d] += 1;
+            if idx[d] < shape[d] {
+                break;
+            }
+            idx[d] = 0;
+        }
+    }
+    store
+}
+
+pub enum Store {
+    F32(Vec<f32>),
+    I32(Vec<i32>),
+    I8(Vec<i8>),
+    U8(Vec<u8>),
+}
+
+/// A materialised input: backing storage + layout (a view is borrowed from it).
+pub enum Mat {
+    None,
+    View {
+        store: Store,
+        shape: Vec<usize>,
+        lay: Lay,
+    },
+    Seq(Sequence),
+}
+
+fn conv_f32(v: &[i32]) -> Vec<f32> {
+    v.iter().map(|x| f32::from_bits(*x as u32)).collect()
+}
+
+pub fn seq_value(dt: DT, items: &[T]) -> Sequence {
+    match dt {
+        DT::F32 => items
+            .iter()
+            .map(|t| Tensor::from_data(&t.shape, conv_f32(&t.vals)))
+            .collect::<Vec<_>>()
+            .into(),
+        DT::I32 => items
+            .iter()
+            .map(|t| Tensor::from_data(&t.shape, t.vals.clone()))
+            .collect::<Vec<_>>()
+            .into(),
+        DT::I8 => items
+            .iter()
+            .map(|t| {
+                Tensor::from_data(&t.shape, t.vals.iter().map(|x| *x as i8).collect::<Vec<_>>())
+            })
+            .collect::<Vec<_>>()
+            .into(),
+        DT::U8 => items
+            .iter()
+            .map(|t| {
+                Tensor::from_data(&t.shape, t.vals.iter().map(|x| *x as u8).collect::<Vec<_>>())
+            })
+            .collect::<Vec<_>>()
+            .into(),
+    }
+}
+
+impl Mat {
+    pub fn new(inp: &In, lay: Option<&Lay>) -> Mat {
+        match inp {
+            In::None => Mat::None,
+            In::Seq(dt, items) => Mat::Seq(seq_value(*dt, items)),
+            In::T(t) => {
+                let contig;
+                let lay = match lay {
+                    Some(l) => l,
+                    None => {
+                        let strides = row_major(&t.shape);
+                        contig = Lay {
+                            len: min_len(&t.shape, &strides),
+                            strides,
+                            offset: 0,
+                        };
+                        &contig
+                    }
+                };
+                let store = match t.dt {
+                    DT::F32 => Store::F32(fill(&conv_f32(&t.vals), &t.shape, lay, 1234.5678f32)),
+                    DT::I32 => Store::I32(fill(&t.vals, &t.shape, lay, 7777)),
+                    DT::I8 => Store::I8(fill(
+                        &t.vals.iter().map(|x| *x as i8).collect::<Vec<_>>(),
+                        &t.shape,
+                        lay,
+                        77,
+                    )),
+                    DT::U8 => Store::U8(fill(
+                        &t.vals.iter().map(|x| *x as u8).collect::<Vec<_>>(),
+                        &t.shape,
+                        lay,
+                        177,
+                    )),
+                };
+                Mat::View {
+                    store,
+                    shape: t.shape.clone(),
+                    lay: lay.clone(),
+                }
+            }
+        }
+    }
+
+    pub fn view(&self) -> Option<ValueView<'_>> {
+        match self {
+            Mat::None => None,
+            Mat::Seq(s) => Some(ValueView::Sequence(s)),
+            Mat::View { store, shape, lay } => {
+                fn mk<'a, E>(data: &'a [E], shape: &[usize], lay: &Lay) -> TensorView<'a, E> {
+                    TensorView::from_slice_with_strides(shape, &data[lay.offset..], &lay.strides[..])
+                        .expect("valid view layout")
+                }
+                Some(match store {
+                    Store::F32(d) => ValueView::FloatTensor(mk(d, shape, lay)),
+                    Store::I32(d) => ValueView::Int32Tensor(mk(d, shape, lay)),
+                    Store::I8(d) => ValueView::Int8Tensor(mk(d, shape, lay)),
+                    Store::U8(d) => ValueView::UInt8Tensor(mk(d, shape, lay)),
+                })
+            }
+        }
+    }
+}
+
+/// Owned-value classes of C13. `axis_hint` is the dimension along which
+/// capacity is reserved for the "reserved" class; `spare` the number of spare
+/// elements / extra rows.
+pub fn owned_value(
+    inp: &In,
+    class: &str,
+    rng: &mut Rng,
+    axis_hint: Option<usize>,
+    spare: usize,
+) -> Option<(Value, J)> {
+    let t = match inp {
+        In::None => return None,
+        In::Seq(dt, items) => {
+            if class != "exact" {
+                return None;
+            }
+            return Some((
+                Value::Sequence(seq_value(*dt, items)),
+                json!({"strides": [], "offset": 0, "len": 0, "cap": 0}),
+            ));
+        }
+        In::T(t) => t,
+    };
+    let n = t.shape.len();
+    fn build<E: Copy + 'static>(
+        logical: Vec<E>,
+        t: &T,
+        class: &str,
+        rng: &mut Rng,
+        axis_hint: Option<usize>,
+        spare: usize,
+        poison: E,
+    ) -> Option<(Tensor<E>, J)> {
+        let n = t.shape.len();
+        let shape = &t.shape;
+        match class {
+            "exact" => {
+                let mut v = Vec::with_capacity(logical.len());
+                v.extend_from_slice(&logical);
+                v.shrink_to_fit();
+                let cap = v.capacity();
+                let strides = row_major(shape);
+                Some((
+                    Tensor::from_data(shape, v),
+                    json!({"strides": strides, "offset": 0, "len": logical.len(), "cap": cap}),
+                ))
+            }
+            "spare" => {
+                let mut v = Vec::with_capacity(logical.len() + spare.max(1));
+                v.extend_from_slice(&logical);
+                let cap = v.capacity();
+                let strides = row_major(shape);
+                Some((
+                    Tensor::from_data(shape, v),
+                    json!({"strides": strides, "offset": 0, "len": logical.len(), "cap": cap}),
+                ))
+            }
+            "permuted" => {
+                let lay = view_layout(t, "permuted", rng)?;
+                let data = fill(&logical, shape, &lay, poison);
+                let len = data.len();
+                let tensor =
+                    Tensor::from_data_with_strides(shape, data, &lay.strides[..]).ok()?;
+                Some((
+                    tensor,
+                    json!({"strides": lay.strides, "offset": 0, "len": len, "cap": len}),
+                ))
+            }
+            "gapped" => {
+                if logical.is_empty() || n == 0 {
+                    return None;
+                }
+                // padded strides without offset (an owned tensor starts at element 0)
+                let mut steps: Vec<usize> = (0..n).map(|_| 1 + rng.below(2)).collect();
+                let tails: Vec<usize> = (0..n).map(|_| rng.below(2)).collect();
+                if !(0..n).any(|d| shape[d] > 1 && (steps[d] > 1 || tails[d] > 0)) {
+                    if let Some(d) = (0..n).rev().find(|d| shape[*d] > 1) {
+                        steps[d] = 2;
+                    } else {
+                        return None;
+                    }
+                }
+                let big: Vec<usize> = (0..n)
+                    .map(|d| (shape[d] - 1) * steps[d] + 1 + tails[d])
+                    .collect();
+                let brm = row_major(&big);
+                let strides: Vec<usize> = (0..n).map(|d| brm[d] * steps[d]).collect();
+                if is_contig(shape, &strides) {
+                    return None;
+                }
+                let lay = Lay {
+                    len: min_len(shape, &strides) + rng.below(3),
+                    strides,
+                    offset: 0,
+                };
+                let data = fill(&logical, shape, &lay, poison);
+                let len = data.len();
+                let tensor =
+                    Tensor::from_data_with_strides(shape, data, &lay.strides[..]).ok()?;
+                Some((
+                    tensor,
+                    json!({"strides": lay.strides, "offset": 0, "len": len, "cap": len}),
+                ))
+            }
+            "reserved" => {
+                // Tensor::with_capacity(full_shape, axis) + append: the public way to
+                // reserve room for growth along `axis`.
+                if n == 0 {
+                    return None;
+                }
+                let axis = axis_hint.filter(|a| *a < n).unwrap_or_else(|| rng.below(n));
+                let mut full = shape.clone();
+                full[axis] += spare.max(1);
+                if full.iter().any(|s| *s == 0) {
+                    return None;
+                }
+                let mut tensor = Tensor::<E>::with_capacity(&full, axis);
+                let src = Tensor::from_data(shape, logical.clone());
+                tensor.append(axis, &src).ok()?;
+                let strides: Vec<usize> = tensor.strides().to_vec();
+                Some((
+                    tensor,
+                    json!({"strides": strides, "offset": 0, "len": 0, "cap": full.iter().product::<usize>()}),
+                ))
+            }
+            _ => None,
+        }
+    }
+    let _ = n;
+    Some(match t.dt {
+        DT::F32 => {
+            let (x, j) = build(conv_f32(&t.vals), t, class, rng, axis_hint, spare, 1234.5678f32)?;
+            (x.into(), j)
+        }
+        DT::I32 => {
+            let (x, j) = build(t.vals.clone(), t, class, rng, axis_hint, spare, 7777i32)?;
+            (x.into(), j)
+        }
+        DT::I8 => {
+            let (x, j) = build(
+                t.vals.iter().map(|v| *v as i8).collect(),
+                t,
+                class,
+                rng,
+                axis_hint,
+                spare,
+                77i8,
+            )?;
+            (x.into(), j)
+        }
+        DT::U8 => {
+            let (x, j) = build(
+                t.vals.iter().map(|v| *v as u8).collect(),
+                t,
+                class,
+                rng,
+                axis_hint,
+                spare,
+                177u8,
+            )?;
+            (x.into(), j)
+        }
+    })
+}
+
+// ------------------------------------------------------------ running
+
+pub fn value_json(v: &Value) -> J {
+    fn tj<E: Copy>(dt: &str, t: &Tensor<E>, conv: impl Fn(E) -> i32) -> J {
+        json!({"dtype": dt, "shape": t.shape().to_vec(),
+               "bits": t.iter().map(|x| conv(*x)).collect::<Vec<i32>>(), "items": []})
+    }
+    fn items<E: Copy>(ts: &[Tensor<E>], conv: impl Fn(E) -> i32) -> Vec<J> {
+        ts.iter()
+            .map(|t| json!({"shape": t.shape().to_vec(), "bits": t.iter().map(|x| conv(*x)).collect::<Vec<i32>>()}))
+            .collect()
+    }
+    match v {
+        Value::FloatTensor(t) => tj("f32", t, |x| x.to_bits() as i32),
+        Value::Int32Tensor(t) => tj("i32", t, |x| x),
+        Value::Int8Tensor(t) => tj("i8", t, |x| x as i32),
+        Value::UInt8Tensor(t) => tj("u8", t, |x| x as i32),
+        Value::Sequence(s) => {
+            let (dt, it) = match s {
+                Sequence::Float(ts) => ("seq_f32", items(ts, |x| x.to_bits() as i32)),
+                Sequence::Int32(ts) => ("seq_i32", items(ts, |x| x)),
+                Sequence::Int8(ts) => ("seq_i8", items(ts, |x| x as i32)),
+                Sequence::UInt8(ts) => ("seq_u8", items(ts, |x| x as i32)),
+                _ => ("seq_unknown", vec![]),
+            };
+            json!({"dtype": dt, "shape": [], "bits": [], "items": it})
+        }
+        _ => json!({"dtype": "unknown", "shape": [], "bits": [], "items": []}),
+    }
+}
+
+pub struct Outcome {
+    /// "ok" | "err" | "panic"
+    pub kind: &'static str,
+    pub err: String,
+    pub outputs: Vec<Value>,
+}
+
+impl Outcome {
+    pub fn ok(&self) -> bool {
+        self.kind == "ok"
+    }
+    pub fn outputs_json(&self) -> Vec<J> {
+        self.outputs.iter().map(value_json).collect()
+    }
+    pub fn out_types(&self) -> Vec<String> {
+        self.outputs.iter().map(|v| vt_name(v.dtype())).collect()
+    }
+}
+
+fn short(s: String) -> String {
+    s.chars().take(160).collect()
+}
+
+/// `Operator::run` with the given views (None = absent input / placeholder).
+pub fn run_normal(op: &dyn Operator, views: &[Option<ValueView>], n_out: usize) -> Outcome {
+    let r = vcommon::guarded(|| {
+        let pool = BufferPool::new();
+        let inputs = InputList::from_optional(views);
+        let ctx = OpRunContext::new(&pool, &inputs, OutputMask::all_used(n_out));
+        op.run(&ctx)
+    });
+    finish(r)
+}
+
+/// `Operator::run_in_place` with the executor's calling convention: the taken
+/// inputs are passed as owned values with their positions, and `views` has a
+/// `None` placeholder at each taken position (src/graph.rs run_plan).
+pub fn run_in_place(
+    op: &dyn Operator,
+    taken: Vec<(usize, Value)>,
+    views: &[Option<ValueView>],
+    n_out: usize,
+) -> Outcome {
+    let r = vcommon::guarded(move || {
+        let pool = BufferPool::new();
+        let inputs = InputList::from_optional(views);
+        let ctx = OpRunContext::new(&pool, &inputs, OutputMask::all_used(n_out));
+        let in_place = InPlaceInputs::from_iter(taken);
+        op.run_in_place(in_place, &ctx)
+    });
+    finish(r)
+}
+
+fn finish(
+    r: Result<Result<rten::verif::OutputList, rten::verif::OpError>, String>,
+) -> Outcome {
+    match r {
+        Ok(Ok(outs)) => Outcome {
+            kind: "ok",
+            err: String::new(),
+            outputs: outs.into_iter().collect(),
+        },
+        Ok(Err(e)) => Outcome {
+            kind: "err",
+            err: short(format!("{e}")),
+            outputs: vec![],
+        },
+        Err(p) => Outcome {
+            kind: "panic",
+            err: short(p),
+            outputs: vec![],
+        },
+    }
+}
+
+// ------------------------------------------------------------ numeric projections
+
+/// True when every f32 input element is an integer with |v| <= 16 (sums of a
+/// few hundred products of such values are exact in f32).
+pub fn exact_inputs(inputs: &[In]) -> bool {
+    let ok = |t: &T| {
+        t.dt != DT::F32
+            || t.vals.iter().all(|b| {
+                let f = f32::from_bits(*b as u32);
+                f.is_finite() && f.fract() == 0.0 && f.abs() <= 16.0
+            })
+    };
+    inputs.iter().all(|i| match i {
+        In::None => true,
+        In::T(t) => ok(t),
+        In::Seq(_, items) => items.iter().all(ok),
+    })
+}
+
+/// Distance between the outputs of a variant run and the reference run, as an
+/// integer: ceil(2^20 * max|a-b| / max(max|ref|, 2^-10)) over all f32 outputs.
+/// -1: not comparable (a run failed, or count/dtype/shape differ);
+/// 2^30: a non-float element differs or a non-finite float differs in bits.
+pub fn dist_q(reference: &Outcome, r: &Outcome) -> i64 {
+    if !reference.ok() || !r.ok() || reference.outputs.len() != r.outputs.len() {
+        return -1;
+    }
+    const BIG: i64 = 1 << 30;
+    let mut maxdiff = 0f64;
+    let mut maxref = 0f64;
+    let mut big = false;
+    for (a, b) in reference.outputs.iter().zip(&r.outputs) {
+        match (a, b) {
+            (Value::FloatTensor(x), Value::FloatTensor(y)) => {
+                if x.shape() != y.shape() {
+                    return -1;
+                }
+                for (p, q) in x.iter().zip(y.iter()) {
+                    if p.to_bits() == q.to_bits() {
+                        if p.is_finite() {
+                            maxref = maxref.max(p.abs() as f64);
+                        }
+                        continue;
+                    }
+                    if !p.is_finite() || !q.is_finite() {
+                        big = true;
+                        continue;
+                    }
+                    maxref = maxref.max(p.abs() as f64);
+                    maxdiff = maxdiff.max((*p as f64 - *q as f64).abs());
+                }
+            }
+            (a, b) => {
+                if a.dtype() != b.dtype() {
+                    return -1;
+                }
+                if value_json(a) != value_json(b) {
+                    if value_json(a)["shape"] != value_json(b)["shape"] {
+                        return -1;
+                    }
+                    big = true;
+                }
+            }
+        }
+    }
+    if big {
+        return BIG;
+    }
+    let scale = maxref.max(1.0 / 1024.0);
+    let q = (maxdiff / scale * (1u64 << 20) as f64).ceil();
+    if q >= BIG as f64 { BIG } else { q as i64 }
+}
+
+// ------------------------------------------------------------ loading operators
+
+/// Build a single-operator ONNX model, load it with the real loader (no
+/// optimisation) and return the operator object of its only operator node.
+pub fn load_op(node: &onnx::Node) -> Result<OpArc, String> {
+    let mut g = onnx::Graph::default();
+    let mut node = node.clone();
+    node.name = "op".into();
+    for (i, name) in node.inputs.iter().enumerate() {
+        if !name.is_empty() {
+            let _ = i;
+            g.inputs.push(onnx::ValueInfo::new(name, onnx::FLOAT, None));
+        }
+    }
+    for name in node.outputs.iter() {
+        if !name.is_empty() {
+            g.outputs.push(onnx::ValueInfo::new(name, onnx::FLOAT, None));
+        }
+    }
+    g.nodes.push(node);
+    let bytes = g.to_model();
+    let mut opts = rten::ModelOptions::with_all_ops();
+    opts.enable_optimization(false);
+    let model = opts.load(bytes).map_err(|e| format!("{e}"))?;
+    let graph = model.verif_graph();
+    let mut found = None;
+    for (_id, n) in graph.iter() {
+        if let Node::Operator(opn) = n {
+            if found.is_some() {
+                return Err("more than one operator node".into());
+            }
+            found = Some(opn.clone_operator());
+        }
+    }
+    found.ok_or_else(|| "no operator node".to_string())
+}
+
+pub fn node(op: &str, domain: &str, n_in: usize, n_out: usize) -> onnx::Node {
+    let ins: Vec<String> = (0..n_in).map(|i| format!("i{i}")).collect();
+    let outs: Vec<String> = (0..n_out).map(|i| format!("o{i}")).collect();
+    let ins_r: Vec<&str> = ins.iter().map(|s| s.as_str()).collect();
+    let outs_r: Vec<&str> = outs.iter().map(|s| s.as_str()).collect();
+    let mut n = onnx::Node::new(op, &ins_r, &outs_r);
+    n.domain = domain.to_string();
+    n
+}
+
+// ------------------------------------------------------------ entry point
+
 pub fn main() {
-    eprintln!("vh-ops relational: not implemented yet");
-    std::process::exit(2);
+    vcommon::quiet_panics();
+    let mode = std::env::args().nth(2).unwrap_or_default();
+    let threads = vcommon::arg_usize("--threads", 4);
+    let pool = rten::ThreadPool::with_num_threads(threads);
+    let code = pool.run(|| match mode.as_str() {
+        "list" => {
+            catalogue::list();
+            0
+        }
+        "smoke" => {
+            catalogue::smoke();
+            0
+        }
+        "inplace" => inplace::main(),
+        "layout" => layout::main(),
+        "types" => types::main(),
+        _ => {
+            eprintln!("usage: vh-ops relational <list|inplace|layout|types> --out FILE [--cases N] [--only KEY] [--threads N]");
+            2
+        }
+    });
+    std::process::exit(code);
 }
